@@ -33,10 +33,23 @@ def run(ctx):
             ctx.notes.append('unreproduced: %s on %s' % (key, e['obj']))
             continue
         vlib.report(ctx, key, 'pair %s: the two lints disagree on %s (%s); %d such certificates' % (key, e['obj'], e['what'], len(evs)), dict(obj=e['obj'], what=e['what'], key=key))
+    # ---- the Validity rule family (the 398/397-day pair of the table lives there): a fidelity oracle, SPEC-DRIFT only
+    vlib.tlc_mc(ctx, 'MC_Validity', 'MC_Validity', workers=1)
+    dv = vlib.drive(ctx, exe, 'validity')
+    vrej, vlines = vlib.tlc_trace(ctx, 'Trace_Validity', os.path.join(dv, 'validity.ndjson'), shards=8)
+    nfid = 0
+    for (ln, payload) in vrej:
+        e = json.loads(vlines[ln - 1])
+        for (why, name, st) in payload[0]:
+            nfid += 1
+            if nfid <= 4:
+                ctx.drift.append('Validity rule: %s reported %s for notBefore=%s notAfter=%s on %s' % (name, LABEL.get(st, st), e['nb'], e['na'], e['tpl']))
+    if nfid > 4:
+        ctx.drift.append('Validity rule: %d judgements in all differ from Validity!Finds' % nfid)
     cov = dict(evaluations=s['events'], distinct_nontrivial=s['classes'],
                rule='evaluation = one certificate on which every pair of the table is run (corpus, SAN<->IAN mirrored, subject<->issuer mirrored, re-dated, vocabulary names planted in SAN and IAN, '
                     'DN blanks / country tags / multi-valued RDN, validity 396..399 days +-2 s, name lengths 64/65/32768/32769); non-trivial = distinct (pair, input family) with both members run and a finding',
-               samples=[s['sample'], json.loads(lines[len(lines) // 2])], both_ran=s['both_ran'], pairs=s['pairs'], vocabulary=s['vocabulary'],
+               samples=[s['sample'], json.loads(lines[len(lines) // 2])], both_ran=s['both_ran'], pairs=s['pairs'], validity_rule_judgements=len(vlines), vocabulary=s['vocabulary'],
                trusted_base=['zcrypto parser'])
     return vlib.finish(ctx, 'model_checking', cov, ASSUME)
 
